@@ -168,7 +168,7 @@ impl RefNorm {
 
 // ---------------------------------------------------------------- entity sets
 
-#[derive(Clone, Debug)]
+#[derive(Clone, Debug, PartialEq, Eq)]
 pub struct ScenShape {
     pub in_rule: bool,
     pub attempts: usize,
@@ -181,12 +181,40 @@ pub struct Shape {
     pub feats: Vec<Vec<ScenShape>>,
     pub parsing_finished: bool,
     pub parse_err: bool,
+    /// the second feature (with its rule, scenarios and steps) is equal *by value* to
+    /// the first one, a distinct entity only by identity (the same path-less feature
+    /// delivered twice)
+    pub twins: bool,
 }
 
 pub struct Poset {
     pub elems: Vec<Ev>,
     pub preds: Vec<Vec<usize>>,
     pub sources: Sources,
+    pub twins: bool,
+}
+
+/// What an observer that sees values only makes of an event of the twin feature.
+pub fn untwin(e: &Ev) -> Ev {
+    let r = |s: &String| s.replacen("F2", "F1", 1);
+    match e {
+        Ev::FeatStarted(f) => Ev::FeatStarted(r(f)),
+        Ev::FeatFinished(f) => Ev::FeatFinished(r(f)),
+        Ev::RuleStarted(f, ru) => Ev::RuleStarted(r(f), r(ru)),
+        Ev::RuleFinished(f, ru) => Ev::RuleFinished(r(f), r(ru)),
+        Ev::Sc { f, r: ru, s, ptrs, retries, ev } => Ev::Sc {
+            f: r(f),
+            r: ru.as_ref().map(r),
+            s: r(s),
+            ptrs: *ptrs,
+            retries: *retries,
+            ev: match ev {
+                ScEv::Step(bg, t, l, e) => ScEv::Step(*bg, r(t), *l, e.clone()),
+                o => o.clone(),
+            },
+        },
+        o => o.clone(),
+    }
 }
 
 pub fn build_poset(shape: &Shape) -> Poset {
@@ -213,7 +241,26 @@ pub fn build_poset(shape: &Shape) -> Poset {
             ..Default::default()
         });
     }
-    let sources = Sources::from_features(specs.iter().enumerate().map(|(i, f)| f.parse(i)).collect());
+    let mut sources = Sources::from_features(specs.iter().enumerate().map(|(i, f)| f.parse(i)).collect());
+    if shape.twins {
+        assert!(shape.feats.len() == 2 && shape.feats[0] == shape.feats[1]);
+        use cucumber::event::Source;
+        let twin = |k: &String| k.replacen("F2", "F1", 1);
+        let f = Source::new((*sources.feats["F1"]).clone());
+        sources.feats.insert("F2".into(), f);
+        for k in sources.rules.keys().filter(|k| k.starts_with("F2")).cloned().collect::<Vec<_>>() {
+            let v = Source::new((*sources.rules[&twin(&k)]).clone());
+            sources.rules.insert(k, v);
+        }
+        for k in sources.scens.keys().filter(|k| k.starts_with("F2")).cloned().collect::<Vec<_>>() {
+            let v = Source::new((*sources.scens[&twin(&k)]).clone());
+            sources.scens.insert(k, v);
+        }
+        for k in sources.steps.keys().filter(|k| k.contains(" F2")).cloned().collect::<Vec<_>>() {
+            let v = Source::new((*sources.steps[&twin(&k)]).clone());
+            sources.steps.insert(k, v);
+        }
+    }
     let mut elems: Vec<Ev> = vec![Ev::Started];
     let mut preds: Vec<Vec<usize>> = vec![vec![]];
     let mut push = |ev: Ev, p: Vec<usize>, elems: &mut Vec<Ev>, preds: &mut Vec<Vec<usize>>| {
@@ -300,7 +347,7 @@ pub fn build_poset(shape: &Shape) -> Poset {
         fin_preds.push(p);
     }
     push(Ev::Finished, fin_preds, &mut elems, &mut preds);
-    Poset { elems, preds, sources }
+    Poset { elems, preds, sources, twins: shape.twins }
 }
 
 /// All shapes whose total event weight is within `max_weight`.
@@ -342,7 +389,7 @@ pub fn shapes(max_weight: usize, max_feats: usize, max_scen: usize) -> Vec<Shape
             for (pf, pe) in [(false, false), (true, false), (true, true)] {
                 let w = weight(a) + usize::from(pf) + usize::from(pe);
                 if w <= max_weight {
-                    out.push(Shape { feats: vec![a.clone()], parsing_finished: pf, parse_err: pe });
+                    out.push(Shape { feats: vec![a.clone()], parsing_finished: pf, parse_err: pe, twins: false });
                 }
             }
         }
@@ -353,7 +400,16 @@ pub fn shapes(max_weight: usize, max_feats: usize, max_scen: usize) -> Vec<Shape
                         feats: vec![a.clone(), b.clone()],
                         parsing_finished: false,
                         parse_err: false,
+                        twins: false,
                     });
+                    if a == b {
+                        out.push(Shape {
+                            feats: vec![a.clone(), b.clone()],
+                            parsing_finished: false,
+                            parse_err: false,
+                            twins: true,
+                        });
+                    }
                 }
             }
         }
@@ -396,12 +452,16 @@ fn dfs(
     let n = po.elems.len();
     if order.len() == n {
         stats.leaves += 1;
-        let input: Vec<Ev> = order.iter().map(|i| po.elems[*i].clone()).collect();
+        let input: Vec<Ev> =
+            order.iter().map(|i| if po.twins { untwin(&po.elems[*i]) } else { po.elems[*i].clone() }).collect();
         let out = out_events(w);
         if out != input {
             stats.reordered_leaves += 1;
         }
-        final_checks(&input, &out, order, shape_idx, stats);
+        if !po.twins {
+            // the declarative checks tell entities apart by name
+            final_checks(&input, &out, order, shape_idx, stats);
+        }
         if stats.samples.len() < 3 && out != input {
             stats.samples.push(json!({
                 "shape": shape_idx,
@@ -417,10 +477,28 @@ fn dfs(
         }
         let mut w2 = w.clone();
         let mut r2 = r.clone();
-        feed(&mut w2, po.sources.realize(&po.elems[i]), &cli::Empty);
+        let fed = std::panic::catch_unwind(std::panic::AssertUnwindSafe(|| {
+            feed(&mut w2, po.sources.realize(&po.elems[i]), &cli::Empty);
+        }));
+        if fed.is_err() {
+            if stats.violations.len() < 20 {
+                let mut hist: Vec<String> = order.iter().map(|j| po.elems[*j].short()).collect();
+                hist.push(po.elems[i].short());
+                stats.violations.push(json!({
+                    "engine": "hist", "property": "C11", "key": "normalize-panicked",
+                    "shape": shape_idx,
+                    "order": order.iter().chain([&i]).collect::<Vec<_>>(),
+                    "message": format!("Normalize panicked on call {} of a contract-abiding stream{}", hist.len(),
+                        if po.twins { " (the second feature equals the first one by value)" } else { "" }),
+                    "history": hist,
+                }));
+            }
+            continue;
+        }
         r2.handle(po.elems[i].clone());
         let got = out_events(&w2);
-        if got != r2.out {
+        let want: Vec<Ev> = if po.twins { r2.out.iter().map(untwin).collect() } else { r2.out.clone() };
+        if got != want {
             if stats.violations.len() < 20 {
                 let mut hist: Vec<String> = order.iter().map(|j| po.elems[*j].short()).collect();
                 hist.push(po.elems[i].short());
@@ -429,10 +507,11 @@ fn dfs(
                     "shape": shape_idx,
                     "order": order.iter().chain([&i]).collect::<Vec<_>>(),
                     "message": format!(
-                        "after {} calls Normalize forwarded {:?} but the reference forwards {:?}",
+                        "after {} calls Normalize forwarded {:?} but the reference forwards {:?}{}",
                         hist.len(),
                         got.iter().map(Ev::short).collect::<Vec<_>>(),
-                        r2.out.iter().map(Ev::short).collect::<Vec<_>>()
+                        want.iter().map(Ev::short).collect::<Vec<_>>(),
+                        if po.twins { " (F2 is a distinct feature equal to F1 by value; names as an observer sees them)" } else { "" }
                     ),
                     "history": hist,
                 }));
@@ -546,8 +625,17 @@ pub fn replay(thorough: bool, shape_idx: usize, order: &[usize]) -> i32 {
     let mut r = RefNorm::default();
     let mut bad = false;
     for i in order {
-        feed(&mut w, po.sources.realize(&po.elems[*i]), &cli::Empty);
+        let fed = std::panic::catch_unwind(std::panic::AssertUnwindSafe(|| {
+            feed(&mut w, po.sources.realize(&po.elems[*i]), &cli::Empty);
+        }));
+        if fed.is_err() {
+            println!("in  {}\n    Normalize PANICKED", po.elems[*i].short());
+            return 1;
+        }
         r.handle(po.elems[*i].clone());
+        if po.twins {
+            r.out = r.out.iter().map(untwin).collect();
+        }
         let got = out_events(&w);
         println!("in  {}", po.elems[*i].short());
         println!("    real forwarded {} events, reference {}", got.len(), r.out.len());
